@@ -358,7 +358,10 @@ theorem reserve_never_releases {cfg : Cfg} {s s' : State} {add : Nat} {r : Excep
 
 /-! ## Unproved part -/
 
-/-- NOT PROVED (history level): along every sequence of `stepCore` steps the multiset of blocks
+/-- RESOLVED — PROVED AS STATED: `C05.history_ledger_holds` in Props/Targets.lean (from
+    `Arena.Hist.stepCore_ledger`); the history-level forms are `C05.history_ledger`, `history_releases_match`,
+    `history_drop_releases_all` (Props/Hist.lean).  Original comment:
+    NOT PROVED (history level): along every sequence of `stepCore` steps the multiset of blocks
     granted so far equals the multiset of blocks released so far plus the releases due (`owned`), hence
     after `drop` everything granted has been released exactly once.  Proved above: the per-function
     ledger facts this induction needs for chunk creation, allocation, reserve, the quiet operations,
